@@ -9,6 +9,11 @@ for d,_,fs in os.walk(base):
     for f in fs:
         p=os.path.join(d,f); rel=os.path.relpath(p,base)
         rep["/repo/"+rel]=p
+for d,_,fs in os.walk("/verif/shim"):
+    for f in fs:
+        if f.endswith(".go"):
+            p=os.path.join(d,f); rel=os.path.relpath(p,"/verif/shim")
+            rep["/repo/zzverif/"+rel]=p
 extra=f"/verif/build/{id}.overlay.extra.json"
 if os.path.exists(extra):
     rep.update(json.load(open(extra))["Replace"])
